@@ -46,6 +46,7 @@ def items(tier, seed):
         for n in range(0, hi + 1):
             out.append({"k": "arith", "d": d, "n": n, "op": "add_array"})
             out.append({"k": "copyvals", "d": d, "n": n})
+            out.append({"k": "copyvals", "d": d, "n": n, "noq": True})
         for op in ("add_fixed", "mul_num", "rmul_num", "div_fixed", "sub_num"):
             out.append({"k": "arith", "d": d, "n": d, "op": op})
         out.append({"k": "pickle", "d": d})
@@ -205,6 +206,9 @@ def run(cfg, V):
                 r = 2.0 * src
             else:
                 r = src - V["y"]
+        elif k == "copyvals" and cfg.get("noq"):
+            src0 = FixedArray.CreateEmptyArray(d, list(xs[:d]))  # no category, no unit
+            r = src0.CreateCopy(values=list(xs[:n]), unit="m")
         elif k == "copyvals":
             r = src.CreateCopy(values=list(xs[:n]))
         elif k == "pickle":
